@@ -16,6 +16,18 @@ os.environ.setdefault("MPLBACKEND", "Agg")
 os.environ.setdefault("PYTHONHASHSEED", "0")
 os.environ.setdefault("OMP_NUM_THREADS", "1")
 os.environ.setdefault("OPENBLAS_NUM_THREADS", "1")
+# The process time zone is an environment answer the harness owns: every check runs away from UTC (zone picked by
+# VERIF_SEED), so that a calendar conversion that silently used local time would differ from the integer reference
+# calendar.  Without tzdata the zone name is ignored by libc and the run is simply in UTC.
+if "VERIF_MC_TZ" in os.environ:
+    os.environ["TZ"] = os.environ["VERIF_MC_TZ"]
+else:
+    try:
+        _seed = int(os.environ.get("VERIF_SEED", "0"))
+    except ValueError:
+        _seed = 0
+    os.environ["TZ"] = ("Pacific/Auckland", "America/Vancouver", "Asia/Kolkata")[_seed % 3]
+time.tzset()
 
 
 def find_module(pid):
